@@ -101,18 +101,9 @@ def handler : Driver.Handler := fun c i => do
   let kNames := expNames.isEmpty || (expNames.length == result.length &&
     (List.zip expNames (result.map (·.1))).all (fun (e, n) => match e with | some s => s == n | none => true))
   let nb := (i.getObjValAs? Nat "nbatches").toOption.getD 0
-  -- C30-F2: every disagreeing column is reported one integer/float width wider than the data (same-width arithmetic)
-  let widened (rep act : String) : Bool :=
-    (rep == "Int64" && act == "Int32") || (rep == "Int32" && act == "Int16") || (rep == "Int16" && act == "Int8") || (rep == "Float64" && act == "Float32")
-  let onlyWidened (acts : List String) : Bool :=
-    acts.length == rtypes.length && (List.zip rtypes acts).all (fun (r, a) => r == a || widened r a)
-  let sqlText := (Driver.getStr c "sql").toOption.getD ""
-  let hasArith := ["+", "-", "*", "/", "%"].any (fun op => (sqlText.splitOn op).length > 1)
   let attr : Option String :=
     match o with
     | some _ =>
-      if (badBatchTypes || badArrays) && !badBatchNames && planF == some result && hasArith
-         && batches.all (fun b => onlyWidened (b.map (·.2))) && arrays.all onlyWidened then some "C30-F2" else
       if badBatchNames && !badBatchTypes && !badArrays && planF == some result
          && (hasUnion plan || (raw && (((Driver.getStr c "sql").toOption.getD "").splitOn " UNION ").length > 1)) then some "C30-F1" else none
     | none => none
